@@ -1,5 +1,5 @@
 (** C10/Props.v — property theorems only (removed files leave no trace). *)
-From EV Require Import Base.StoreSM C33.Model C33.Spec C08.Module C08.PropertyModel C33.Proofs C08.SimpleModels C10.Proofs.
+From EV Require Import Base.StoreSM C33.Model C33.Spec C08.Module C08.PropertyModel C33.Proofs C08.SimpleModels C10.TypeModel C10.Proofs.
 Local Open Scope N_scope.
 
 (** After [remove_file_by_uri f], no container of the module index holds the file id [f] (file map keys and
@@ -25,6 +25,16 @@ Theorem global_remove_no_empty : forall s f nm l, In (nm, l) (g_remove f s) -> l
 Proof. exact Proofs.global_remove_no_empty. Qed.
 Theorem property_remove_no_file : forall s f, ngetN f (px_infile (p_remove f s)) = None.
 Proof. exact Proofs.property_remove_no_file. Qed.
+
+(** LuaTypeIndex (transcribed part: namespaces, file_types, declaration locations, super clauses): after remove(f), for
+    every type the file declared, no surviving declaration location and no surviving super clause carries f — also
+    when another file still declares the type; and f has no namespace / using / file_types entry. *)
+Theorem type_remove_no_mention : forall s f ids id,
+  ngetN f (t_ftypes s) = Some ids -> In id ids -> clean_at f id (t_remove f s).
+Proof. exact Proofs.type_remove_clean. Qed.
+Theorem type_remove_file_maps : forall s f,
+  ngetN f (t_ns (t_remove f s)) = None /\ ngetN f (t_using (t_remove f s)) = None /\ ngetN f (t_ftypes (t_remove f s)) = None.
+Proof. exact Proofs.type_remove_file_maps. Qed.
 
 Example remove_example :
   let c := ex_cfg in
